@@ -149,6 +149,11 @@ func GenSpec(t *rapid.T) *Spec {
 		s.RtOwnStake = rapid.Bool().Draw(t, "rtOwnStake")
 		s.RtSlash = uint64(rapid.SampledFrom([]int{0, 1, 100, 100}).Draw(t, "rtSlash"))
 		s.RtMaxInMsgs = uint32(rapid.SampledFrom([]int{0, 1, 2, 8}).Draw(t, "rtMaxInMsgs"))
+		// the runtime's own account (spent by the messages the runtime emits) and whether escrow messages are allowed
+		if rapid.IntRange(0, 2).Draw(t, "rtAccount") > 0 {
+			s.RtAccountBalance = uint64(rapid.SampledFrom([]int{1, 50, 1000, 100000}).Draw(t, "rtAccountBalance"))
+			s.RtEscrowMsgs = rapid.Bool().Draw(t, "rtEscrowMsgs")
+		}
 		if rapid.IntRange(0, 2).Draw(t, "rtLiveness") > 0 {
 			// liveness evaluation of the committee's workers at every epoch transition: suspension from the runtime's
 			// committees, and after enough failures freezing and slashing of the node
